@@ -429,6 +429,16 @@ def gen_bound():
     if not m:
         raise GenError("MakeUncompressedStream: nibble choice `if chunk_size > 1u32 << 20 { K } else { K }` not found")
     out.append("Definition mus_nibble_values : list N := %s." % coq_list([parse_num(m.group(2), "mus"), parse_num(m.group(1), "mus")]))
+    # --- encoder_compress: the two decisions of the fallback (hand-modelled in model/Bound.v; anchored
+    #     here so that a reshaped condition is not silently covered by the old model)
+    body = body_after_signature(fn_body_any(e, "encoder_compress", "encode.rs"))
+    if not re.search(r"if\s+!\s*result\s*\|\|\s*(\w+)\s*!=\s*0\s*&&\s*\(\s*\*\s*encoded_size\s*>\s*\1\s*\)\s*\{", body):
+        raise GenError("encoder_compress: fallback trigger `if !result || max_out_size != 0 && (*encoded_size > max_out_size) {` not found")
+    if not re.search(r"let\s+(\w+)\s*:\s*usize\s*=\s*BrotliEncoderMaxCompressedSize\(\s*input_size\s*\)\s*;", body):
+        raise GenError("encoder_compress: `let max_out_size: usize = BrotliEncoderMaxCompressedSize(input_size);` not found")
+    if not re.search(r"if\s+(\w+)\s*==\s*0\s*\{\s*return\s+false\s*;\s*\}\s*if\s+(\w+)\s*>=\s*\1\s*\{\s*\*\s*encoded_size\s*=\s*MakeUncompressedStream\(", body):
+        raise GenError("encoder_compress: fallback admission `if max_out_size == 0 { return false; } if out_size >= max_out_size { *encoded_size = MakeUncompressedStream(` not found")
+    out.append("Definition oneshot_fallback_needs_bound_capacity : bool := true.")
     # --- the expansion guard of WriteMetaBlockInternal: `bytes + K + saved_byte_location < (*storage_ix >> 3)`
     body = body_after_signature(fn_body_any(e, "WriteMetaBlockInternal", "encode.rs"))
     g = nums_in(body, r"if\s+bytes\s*\+\s*" + LIT + r"\s*\+\s*saved_byte_location\s*<\s*\(\s*\*storage_ix\s*>>\s*3\s*\)", "WriteMetaBlockInternal guard", 1)
@@ -555,7 +565,7 @@ def write_if_changed(path, text):
 def regenerate(outdir, sections=None):
     """returns (changed: list of files, errors: list of str)"""
     changed, errors = [], []
-    for s in (sections or SECTIONS):
+    for s in (SECTIONS if sections is None else sections):
         path = os.path.join(outdir, "Gen%s.v" % s)
         try:
             if write_if_changed(path, render(s)):
